@@ -217,6 +217,8 @@ def step(ctx, i, op):
         ctx.res.stats["rule_installations_abandoned"] += 1
     if op.get("pending"):
         ctx.res.stats["clear_with_unfinished_request"] += 1
+    if observed and observed[0] == "bad_argument":
+        ctx.res.stats["clear_requests_failing_half_way"] += 1
     if observed and observed[0] == "input_fault":
         ctx.res.stats["input_stream_faults"] += 1
         ctx.res.stats["input_stream_fault_left_" + observed[1]] += 1
